@@ -559,7 +559,7 @@ type sortCase struct{ A []int }
 
 func genSortCase(t *rapid.T) sortCase {
 	n := rapid.IntRange(0, sz(200, 3000)).Draw(t, "n")
-	shape := rapid.SampledFrom([]string{"random", "fewvalues", "sorted", "reversed", "organpipe", "equal", "sawtooth", "killer"}).Draw(t, "shape")
+	shape := rapid.SampledFrom([]string{"random", "fewvalues", "sorted", "reversed", "organpipe", "equal", "sawtooth", "killer", "almost", "almost"}).Draw(t, "shape")
 	a := make([]int, n)
 	switch shape {
 	case "random":
@@ -596,6 +596,24 @@ func genSortCase(t *rapid.T) sortCase {
 		p := rapid.IntRange(1, 17).Draw(t, "period")
 		for i := range a {
 			a[i] = i % p
+		}
+	case "almost":
+		// strictly ascending or strictly descending, except for one or two elements out of place at the very ends or
+		// at a drawn position (what an "already sorted / already reversed" shortcut has to get exactly right)
+		if n < 3 {
+			n = rapid.IntRange(3, 40).Draw(t, "an")
+			a = make([]int, n)
+		}
+		desc := rapid.Bool().Draw(t, "descending")
+		for i := range a {
+			a[i] = 10 * (i + 1)
+			if desc {
+				a[i] = 10 * (n - i)
+			}
+		}
+		for k := rapid.IntRange(1, 2).Draw(t, "outofplace"); k > 0; k-- {
+			pos := rapid.SampledFrom([]int{0, 0, 1, n - 1, n - 1, n - 2, rapid.IntRange(0, n-1).Draw(t, "pos")}).Draw(t, "where")
+			a[pos] = rapid.SampledFrom([]int{-1, 5, 10*n + 5, 10 * (n / 2), a[(pos+1)%n]}).Draw(t, "val")
 		}
 	case "killer":
 		// median-of-three killer sequence (drives quicksort towards its depth limit -> heap sort path)
@@ -637,6 +655,6 @@ func init() {
 		"rapid: (start,end,step) with |values| <= 20 around 0 or around a far base, step in -7..7; oracle: {start+i*step, i>=0} from start inclusive to end exclusive, the three documented infinite-set panics being the only allowed panics. Non-trivial: negative step with a non-empty result.",
 		Budget{Checks: 4000, Shards: 1}, Budget{Checks: 300000, Shards: 4}, genRangeCase, checkRangeCase)
 	RegisterRapid("C17_sort",
-		"rapid: slices of length 0..200 (quick) / 0..3000 (thorough) in eight shapes (random, few values, sorted, reversed, organ pipe, all equal, sawtooth, median-of-three killer); ints.Sort must equal sort.Ints. Non-trivial: length > 12 (beyond the insertion-sort cutoff).",
+		"rapid: slices of length 0..200 (quick) / 0..3000 (thorough) in eight shapes (random, few values, sorted, reversed, organ pipe, all equal, sawtooth, median-of-three killer, almost ascending/descending with one or two elements out of place at the ends); ints.Sort must equal sort.Ints. Non-trivial: length > 12 (beyond the insertion-sort cutoff).",
 		Budget{Checks: 1500, Shards: 1}, Budget{Checks: 30000, Shards: 8}, genSortCase, checkSortCase)
 }
